@@ -13,4 +13,11 @@ def main():
     with kani.Scratch(groups[:1]) as sc:
         h = kani.parse_harnesses(groups[0]["unit"])[0]
         kani._run_kani(sc.crate_dir("elvis-core"), [h["harness"]], ["--output-format=terse"], 1800, os.path.join(kani.VERIF, "build", "warm.log"))
+    # the replay / scenario target (plain tests under --cfg vx_replay, repository toolchain): the bounded scenarios of the
+    # TCP checks run in every check, so their dependency build is paid here
+    tcb = [g for g in groups if g["unit"] == "tcb"]
+    if tcb:
+        with kani.Scratch(tcb) as sc:
+            env = dict(os.environ, CARGO_TARGET_DIR=kani.REPLAY_TARGET, RUSTFLAGS="--cfg vx_replay", CARGO_NET_OFFLINE="true")
+            subprocess.run(["cargo", "test", "--offline", "--lib", "-p", "elvis-core", "--no-run"], cwd=os.path.join(sc.dir, "sim"), env=env, capture_output=True, text=True, timeout=1800)
 main()
